@@ -1,6 +1,328 @@
-/- C03 helper lemmas. -/
+/- C03 helper lemmas: the cache invariant and its preservation by the cache primitives. -/
 import BV.C03.Model
 namespace BV.C03.Lemmas
 open BV.C03 BV.C03.Spec
+
+/-! ### basic facts -/
+
+theorem get_setSlot (c : SlotMap) (o : OutPoint) (s : Slot) (p : OutPoint) :
+    (setSlot c o s).get p = if p = o then s else c.get p := rfl
+
+theorem get_setSlot_same (c : SlotMap) (o : OutPoint) (s : Slot) : (setSlot c o s).get o = s := by
+  simp [get_setSlot]
+
+theorem get_setSlot_ne (c : SlotMap) (o : OutPoint) (s : Slot) (p : OutPoint) (h : p ≠ o) :
+    (setSlot c o s).get p = c.get p := by
+  simp [get_setSlot, h]
+
+theorem abs_setSlot (c : Cache) (db : Db) (o : OutPoint) (s : Slot) (p : OutPoint) :
+    abs (setSlot c o s) db p = if p = o then slotAbs s (db o) else abs c db p := by
+  unfold abs
+  by_cases h : p = o
+  · subst h; simp [get_setSlot]
+  · simp [get_setSlot, h]
+
+/-- The cache invariant relative to the database:
+fresh entries and nil markers have no database row; unmodified entries equal their row
+(and are unspent: `Spend` always sets modified). -/
+structure CInv (c : Cache) (db : Db) : Prop where
+  fresh : ∀ o ce, c.get o = some (some ce) → ce.fresh = true → db o = none
+  nil : ∀ o, c.get o = some none → db o = none
+  clean : ∀ o ce, c.get o = some (some ce) → ce.modified = false → db o = some ce.e ∧ ce.spent = false
+
+theorem cinv_empty (db : Db) : CInv emptyCache db :=
+  ⟨fun _ _ h => by simp [emptyCache] at h, fun _ h => by simp [emptyCache] at h,
+   fun _ _ h => by simp [emptyCache] at h⟩
+
+/-- Setting one slot keeps the invariant when the new slot satisfies it. -/
+theorem cinv_setSlot {c : Cache} {db : Db} (h : CInv c db) (o : OutPoint) (s : Slot)
+    (hf : ∀ ce, s = some (some ce) → ce.fresh = true → db o = none)
+    (hn : s = some none → db o = none)
+    (hc : ∀ ce, s = some (some ce) → ce.modified = false → db o = some ce.e ∧ ce.spent = false) :
+    CInv (setSlot c o s) db := by
+  refine ⟨?_, ?_, ?_⟩
+  · intro p ce hp hfr
+    by_cases hpo : p = o
+    · subst hpo; rw [get_setSlot_same] at hp; exact hf ce hp hfr
+    · rw [get_setSlot_ne _ _ _ _ hpo] at hp; exact h.fresh p ce hp hfr
+  · intro p hp
+    by_cases hpo : p = o
+    · subst hpo; rw [get_setSlot_same] at hp; exact hn hp
+    · rw [get_setSlot_ne _ _ _ _ hpo] at hp; exact h.nil p hp
+  · intro p ce hp hm
+    by_cases hpo : p = o
+    · subst hpo; rw [get_setSlot_same] at hp; exact hc ce hp hm
+    · rw [get_setSlot_ne _ _ _ _ hpo] at hp; exact h.clean p ce hp hm
+
+/-! ### fetch -/
+
+/-- Value seen in a fetch result. -/
+def rval : Option CEntry → Option Entry
+  | none => none
+  | some ce => ce.val
+
+theorem fetch_spec (c : Cache) (db : Db) (o : OutPoint) (h : CInv c db) :
+    CInv (fetch c db o).1 db ∧ (∀ p, abs (fetch c db o).1 db p = abs c db p) ∧
+    (fetch c db o).1.get o = some (fetch c db o).2 ∧ rval (fetch c db o).2 = abs c db o := by
+  unfold fetch
+  cases hc : c.get o with
+  | some r =>
+    refine ⟨h, fun _ => rfl, hc, ?_⟩
+    simp only [abs, hc]
+    cases r <;> rfl
+  | none =>
+    simp only []
+    cases hd : db o with
+    | none =>
+      refine ⟨?_, ?_, ?_, ?_⟩
+      · apply cinv_setSlot h
+        · intro ce hce; simp at hce
+        · intro _; exact hd
+        · intro ce hce; simp at hce
+      · intro p; rw [abs_setSlot]
+        by_cases hp : p = o
+        · subst hp; simp [abs, hc, hd, slotAbs]
+        · simp [hp]
+      · simp [get_setSlot]
+      · simp [rval, abs, hc, hd, slotAbs]
+    | some e =>
+      refine ⟨?_, ?_, ?_, ?_⟩
+      · apply cinv_setSlot h
+        · intro ce hce hf
+          simp [loaded] at hce; subst hce; simp at hf
+        · intro hn; simp at hn
+        · intro ce hce _
+          simp [loaded] at hce; subst hce; simp [hd]
+      · intro p; rw [abs_setSlot]
+        by_cases hp : p = o
+        · subst hp; simp [abs, hc, hd, slotAbs, loaded, CEntry.val]
+        · simp [hp]
+      · simp [get_setSlot]
+      · simp [rval, abs, hc, hd, slotAbs, loaded, CEntry.val]
+
+theorem fetchMany_spec (db : Db) (os : List OutPoint) :
+    ∀ (c : Cache), CInv c db → CInv (fetchMany c db os) db ∧ ∀ p, abs (fetchMany c db os) db p = abs c db p := by
+  induction os with
+  | nil => intro c h; exact ⟨h, fun _ => rfl⟩
+  | cons o os ih =>
+    intro c h
+    have h1 := fetch_spec c db o h
+    have h2 := ih (fetch c db o).1 h1.1
+    exact ⟨h2.1, fun p => (h2.2 p).trans (h1.2.1 p)⟩
+
+/-! ### addTxOut (fixed rule) -/
+
+theorem addTxOut_spec (c : Cache) (db : Db) (id i : Nat) (out : Out) (cb : Bool) (ht : Nat)
+    (h : CInv c db) (hnew : c.get (id, i) = none → db (id, i) = none) :
+    CInv (addTxOut c (id, i) out cb ht) db ∧
+    ∀ p, abs (addTxOut c (id, i) out cb ht) db p = addOut id ht cb i out (abs c db) p := by
+  unfold addTxOut addOut
+  by_cases hu : unspendable out.script = true
+  · rw [if_pos hu, if_pos hu]; exact ⟨h, fun _ => rfl⟩
+  · rw [if_neg hu, if_neg hu]
+    refine ⟨?_, ?_⟩
+    · apply cinv_setSlot h
+      · intro ce hce hf
+        simp at hce; subst hce
+        simp only [] at hf
+        cases hc : c.get (id, i) with
+        | none => exact hnew hc
+        | some r =>
+          cases r with
+          | none => exact h.nil _ hc
+          | some old =>
+            rw [hc] at hf; simp only [] at hf
+            exact h.fresh _ old hc hf
+      · intro hn; simp at hn
+      · intro ce hce hm
+        simp at hce; subst hce; simp at hm
+    · intro p
+      rw [abs_setSlot]
+      by_cases hp : p = (id, i)
+      · subst hp; simp [slotAbs, CEntry.val, add]
+      · simp [hp, add]
+
+/-! ### addTxIn -/
+
+theorem addTxIn_spec (c : Cache) (db : Db) (o : OutPoint) (e : Entry) (h : CInv c db)
+    (hex : abs c db o = some e) :
+    ∃ c', addTxIn c db o = some (c', e) ∧ CInv c' db ∧ ∀ p, abs c' db p = spend (abs c db) o p := by
+  have hf := fetch_spec c db o h
+  unfold addTxIn
+  cases hr : fetch c db o with
+  | mk c1 r =>
+    rw [hr] at hf
+    simp only [] at hf
+    obtain ⟨hc1, habs, hget, hval⟩ := hf
+    cases r with
+    | none => rw [hex] at hval; simp [rval] at hval
+    | some ce =>
+      simp only []
+      rw [hex] at hval
+      simp only [rval, CEntry.val] at hval
+      have hsp : ce.spent = false := by
+        cases hs : ce.spent
+        · rfl
+        · rw [hs] at hval; simp at hval
+      have hee : ce.e = e := by rw [hsp] at hval; simpa using hval
+      have hspend : ce.spend = { ce with spent := true, modified := true } := by
+        simp [CEntry.spend, hsp]
+      by_cases hfr : ce.fresh = true
+      · have : ce.spend.fresh = true := by rw [hspend]; exact hfr
+        simp only [this, if_true]
+        refine ⟨setSlot c1 o none, by rw [hee], ?_, ?_⟩
+        · apply cinv_setSlot hc1
+          · intro ce' hce'; simp at hce'
+          · intro hn; simp at hn
+          · intro ce' hce'; simp at hce'
+        · intro p
+          rw [abs_setSlot]
+          by_cases hp : p = o
+          · subst hp
+            simp [slotAbs, spend, hc1.fresh _ ce hget hfr]
+          · simp [hp, spend, habs p]
+      · have : ce.spend.fresh = false := by rw [hspend]; simpa using hfr
+        simp only [this]
+        refine ⟨setSlot c1 o (some (some ce.spend)), by simp [hee], ?_, ?_⟩
+        · apply cinv_setSlot hc1
+          · intro ce' hce' hf'
+            simp at hce'; subst hce'; rw [this] at hf'; simp at hf'
+          · intro hn; simp at hn
+          · intro ce' hce' hm
+            simp at hce'; subst hce'; rw [hspend] at hm; simp at hm
+        · intro p
+          rw [abs_setSlot]
+          by_cases hp : p = o
+          · subst hp
+            simp [slotAbs, spend, hspend, CEntry.val]
+          · simp [hp, spend, habs p]
+
+
+/-! ### lists of inputs / outputs, transactions, blocks -/
+
+theorem abs_none_db {c : Cache} {db : Db} {o : OutPoint} (h : abs c db o = none) (hc : c.get o = none) :
+    db o = none := by
+  simpa [abs, hc, slotAbs] using h
+
+theorem addOut_other (id h : Nat) (cb : Bool) (i : Nat) (o : Out) (u : UtxoSet) (p : OutPoint)
+    (hp : p ≠ (id, i)) : addOut id h cb i o u p = u p := by
+  unfold addOut
+  split
+  · rfl
+  · simp [add, hp]
+
+theorem addTxOuts_spec (db : Db) (id ht : Nat) (cb : Bool) (outs : List Out) :
+    ∀ (i : Nat) (c : Cache), CInv c db →
+      (∀ k, i ≤ k → k < i + outs.length → abs c db (id, k) = none) →
+      CInv (addTxOuts id ht cb i outs c) db ∧
+      abs (addTxOuts id ht cb i outs c) db = addOuts id ht cb i outs (abs c db) := by
+  induction outs with
+  | nil => intro i c h _; exact ⟨h, rfl⟩
+  | cons o os ih =>
+    intro i c h hnew
+    have h1 := addTxOut_spec c db id i o cb ht h
+      (fun hc => abs_none_db (hnew i (Nat.le_refl _) (by simp)) hc)
+    have habs : abs (addTxOut c (id, i) o cb ht) db = addOut id ht cb i o (abs c db) := funext h1.2
+    have h2 := ih (i + 1) (addTxOut c (id, i) o cb ht) h1.1 (by
+      intro k hk1 hk2
+      rw [habs, addOut_other]
+      · exact hnew k (by omega) (by simp; omega)
+      · intro heq; injection heq with _ h2; omega)
+    refine ⟨h2.1, ?_⟩
+    show abs (addTxOuts id ht cb (i + 1) os (addTxOut c (id, i) o cb ht)) db = _
+    rw [h2.2, habs]; rfl
+
+theorem addTxIns_spec (db : Db) (ins : List OutPoint) :
+    ∀ (c : Cache), CInv c db → validIns (abs c db) ins →
+      ∃ c', addTxIns db ins c = some (c', journalIns (abs c db) ins) ∧ CInv c' db ∧
+        abs c' db = spendAll (abs c db) ins := by
+  induction ins with
+  | nil => intro c h _; exact ⟨c, rfl, h, rfl⟩
+  | cons o os ih =>
+    intro c h hv
+    obtain ⟨hsome, hrest⟩ := hv
+    cases hex : abs c db o with
+    | none => rw [hex] at hsome; simp at hsome
+    | some e =>
+      obtain ⟨c1, hin, hc1, habs1⟩ := addTxIn_spec c db o e h hex
+      have habs1' : abs c1 db = spend (abs c db) o := funext habs1
+      rw [← habs1'] at hrest
+      obtain ⟨c2, hins, hc2, habs2⟩ := ih c1 hc1 hrest
+      refine ⟨c2, ?_, hc2, ?_⟩
+      · simp only [addTxIns, hin, hins, journalIns, hex, habs1']
+        rfl
+      · rw [habs2, habs1']; rfl
+
+theorem connectTx_spec (db : Db) (ht : Nat) (cb : Bool) (c : Cache) (tx : Tx) (h : CInv c db)
+    (hv : validTx cb (abs c db) tx) :
+    ∃ c', connectTx db ht cb c tx = some (c', if cb then [] else journalIns (abs c db) tx.ins) ∧
+      CInv c' db ∧ abs c' db = applyTx ht cb (abs c db) tx := by
+  obtain ⟨hins, hnew⟩ := hv
+  unfold connectTx applyTx
+  cases cb with
+  | true =>
+    simp only [if_true] at hnew ⊢
+    have := addTxOuts_spec db tx.id ht true tx.outs 0 c h (by
+      intro k _ hk; exact hnew k (by simpa using hk))
+    exact ⟨_, rfl, this.1, this.2⟩
+  | false =>
+    simp only [Bool.false_eq_true, if_false, false_or] at hnew hins ⊢
+    obtain ⟨c1, hi, hc1, habs1⟩ := addTxIns_spec db tx.ins c h hins
+    rw [hi]
+    simp only []
+    rw [← habs1] at hnew
+    have := addTxOuts_spec db tx.id ht false tx.outs 0 c1 hc1 (by
+      intro k _ hk; exact hnew k (by simpa using hk))
+    refine ⟨_, rfl, this.1, ?_⟩
+    rw [this.2, habs1]
+
+theorem connectTxs_spec (db : Db) (ht : Nat) (txs : List Tx) :
+    ∀ (c : Cache), CInv c db → validTxs ht (abs c db) txs →
+      ∃ c', connectTxs db ht txs c = some (c', journalTxs ht (abs c db) txs) ∧ CInv c' db ∧
+        abs c' db = applyTxs ht (abs c db) txs := by
+  induction txs with
+  | nil => intro c h _; exact ⟨c, rfl, h, rfl⟩
+  | cons t ts ih =>
+    intro c h hv
+    obtain ⟨hvt, hvts⟩ := hv
+    obtain ⟨c1, h1, hc1, habs1⟩ := connectTx_spec db ht false c t h hvt
+    rw [← habs1] at hvts
+    obtain ⟨c2, h2, hc2, habs2⟩ := ih c1 hc1 hvts
+    refine ⟨c2, ?_, hc2, ?_⟩
+    · simp only [connectTxs, h1, h2, journalTxs, habs1]
+      simp
+    · rw [habs2, habs1]; rfl
+
+theorem connectTransactions_spec (db : Db) (ht : Nat) (c : Cache) (b : Block) (h : CInv c db)
+    (hv : validBlock (abs c db) ht b) :
+    ∃ c', connectTransactions db ht c b = some (c', journalOf (abs c db) ht b) ∧ CInv c' db ∧
+      abs c' db = applyBlock (abs c db) ht b := by
+  obtain ⟨hcb, htxs⟩ := hv
+  obtain ⟨c1, h1, hc1, habs1⟩ := connectTx_spec db ht true c b.cb h hcb
+  rw [← habs1] at htxs
+  obtain ⟨c2, h2, hc2, habs2⟩ := connectTxs_spec db ht b.txs c1 hc1 htxs
+  refine ⟨c2, ?_, hc2, ?_⟩
+  · simp only [connectTransactions, h1, h2, journalOf, habs1]
+  · rw [habs2, habs1]; rfl
+
+/-! ### writeCache -/
+
+theorem writeCache_eq_abs (c : Cache) (db : Db) (h : CInv c db) : writeCache c db = abs c db := by
+  funext o
+  unfold writeCache abs
+  cases hc : c.get o with
+  | none => rfl
+  | some r =>
+    cases r with
+    | none => rfl
+    | some ce =>
+      simp only [slotWrite, slotAbs, CEntry.val]
+      cases hs : ce.spent
+      · cases hm : ce.modified
+        · simp [(h.clean o ce hc hm).1]
+        · simp
+      · simp
+
+theorem abs_empty (db : Db) : abs emptyCache db = db := rfl
 
 end BV.C03.Lemmas
